@@ -60,9 +60,8 @@ impl MessageReader<'_> {
                             | Tag::Experimental(_) => {
                                 debug!("ignoring trailing packet: {tag:?}");
                                 // consume the trailing packet, to ensure we fully process all data
-
-                                let mut out = Vec::new();
-                                packet.read_to_end(&mut out)?;
+                                // (without keeping it: it may be of any size)
+                                packet.drain()?;
                             }
                             _ => {
                                 return Err(io::Error::new(
